@@ -272,7 +272,8 @@ func c06RefRegExp(b []byte) int {
 func c06Hostile(t *fw.T) {
 	r := t.Rng
 	li := langs["js"]
-	src := gen.ToValidUTF8(gen.Hostile(r, li.corpus, li.dict, 2048))
+	_ = li
+	src := gen.ToValidUTF8(hostileInput(r, "js", 2048))
 	regexpMode := r.Intn(3) // 0: never call RegExp(); 1: after every '/' '/='; 2: after some
 	t.Desc(map[string]any{"kind": "hostile", "src": src, "regexp": regexpMode})
 	in := parse.NewInputBytes(append([]byte(nil), src...))
